@@ -22,7 +22,8 @@ def srcBlkViews : List (String × (Bool → Frag → Rd.R) × Codec × (Val → 
   ("OldMcBlocksInfo", SrcBlk.OldMcBlocksInfo, oldMcBlocksInfo, Blk.view_OldMcBlocksInfo),
   ("BlockCreateStats", SrcBlk.BlockCreateStats, blockCreateStats, Blk.view_BlockCreateStats),
   ("ConfigParams", SrcBlk.ConfigParams, configParams, Blk.view_ConfigParams),
-  ("McStateExtra", SrcBlk.McStateExtra, mcStateExtra, Blk.view_McStateExtra)]
+  ("McStateExtra", SrcBlk.McStateExtra, mcStateExtra, Blk.view_McStateExtra),
+  ("ShardStateUnsplit", SrcBlk.ShardStateUnsplit, shardStateUnsplit, Blk.view_ShardStateUnsplit)]
 
 /-- `tlbsrcblk <Class> <dag> <node>` → `ok <value json> <remaining bits> <remaining refs>` | `none` :
     the regenerated reader of the class run on that cell -/
